@@ -56,3 +56,59 @@ Definition write_std (s : sent) : option str :=
   end.
 
 End Writer.
+
+(* ---- every option combination ----------------------------------------------------------------
+   StandardLexWriter with arbitrary options: drop_parens, identity_infix, max_infix.
+   _write_predicated: infix iff arity > 1 and (arity < max_infix or the predicate is Identity and
+   identity_infix); the whitespace string surrounds the symbol only for Identity.
+   _write_operated: the `a != b` form only under identity_infix. *)
+Record wopts := { wo_drop : bool; wo_idinfix : bool; wo_maxinfix : nat }.
+Definition wopts_default : wopts := {| wo_drop := true; wo_idinfix := true; wo_maxinfix := 0 |}.
+
+Definition is_identity (p : pred) : bool := match p with PSys Identity => true | _ => false end.
+
+Definition should_infix (O : wopts) (p : pred) : bool :=
+  (1 <? pred_arity p) && ((pred_arity p <? wo_maxinfix O) || (is_identity p && wo_idinfix O)).
+
+Section WriterO.
+Variable O : wopts.
+Variable S : swtable.
+Local Notation W := (sw S).
+
+Fixpoint write_stdo_in (s : sent) : option str :=
+  match s with
+  | Atom i sub => wcoords W (w_atom W i) sub
+  | Pred p args =>
+      if should_infix O p then
+        match args with
+        | a :: rest =>
+            let ws := if is_identity p then sw_ws S else Some [] in
+            oapps [wparam W a; ws; wpred W p; ws; wparams W rest]
+        | [] => None                                         (* s[0]: IndexError *)
+        end
+      else oapp (wpred W p) (wparams W args)
+  | Quant q (i, sub) b => oapps [w_quant W q; wcoords W (w_var W i) sub; write_stdo_in b]
+  | Un o a =>
+      match o, a with
+      | Negation, Pred (PSys Identity) args =>
+          if wo_idinfix O then
+            match args with
+            | p1 :: p2 :: _ => oapps [wparam W p1; sw_ws S; sw_neqid S; sw_ws S; wparam W p2]
+            | _ => None                                      (* s[0] / s[1]: IndexError *)
+            end
+          else oapp (w_uop W o) (write_stdo_in a)
+      | _, _ => oapp (w_uop W o) (write_stdo_in a)
+      end
+  | Bin o a b =>
+      oapps [sw_popen S; write_stdo_in a; sw_ws S; w_bop W o; sw_ws S; write_stdo_in b; sw_pclose S]
+  end.
+
+Definition write_stdo (s : sent) : option str :=
+  match s with
+  | Bin o a b =>
+      if wo_drop O then oapps [write_stdo_in a; sw_ws S; w_bop W o; sw_ws S; write_stdo_in b]
+      else write_stdo_in s
+  | _ => write_stdo_in s
+  end.
+
+End WriterO.
